@@ -10,7 +10,8 @@ add("C03", "exploration",
     "Generated backend responses (grammar over interim 1xx, final status 200-599, repeated/empty/long fields incl. Proxy-Status-like names, Set-Cookie, hop-by-hop "
     "fields, three framings, chunk sizes incl. 1-byte first chunk, declared/undeclared/comma-joined trailers, pauses between writes) "
     "are served by a scripted raw-TCP backend and by an h2c backend behind the real agent (-race) and server binaries; a raw client "
-    "compares status, every end-to-end field in both directions (nothing lost, nothing invented), body and trailers. Race reports of "
+    "compares status, every end-to-end field in both directions (nothing lost, nothing invented), body and trailers. A third part repeats this through an agent with session tracking, "
+    "websocket shim and banner enabled for responses those features must leave alone (no Set-Cookie, no HTML). Race reports of "
     "the binaries count as violations. Sampling of inputs and schedules, not proof.",
     "Trusts net/http's client-side response parser used by the harness client. Date and Content-Type added by the front hop when the "
     "backend sent none, and re-framing (Content-Length/Transfer-Encoding/Trailer/Connection), are allowed.",
